@@ -5,6 +5,7 @@ import Infretis.Lemmas.RepexC03RRestore
 import Infretis.Lemmas.RepexC03Micro
 import Infretis.Lemmas.RepexC03Factory
 import Infretis.Lemmas.RepexC03AvailSysR
+import Infretis.Lemmas.RepexC03Submit
 /-!
 # C03 — a busy ensemble, path, engine or work directory is never shared
 
@@ -1424,5 +1425,175 @@ example : 2 ≤ exS0.locks.length
         (fun r => (r.2.1.length, r.2.2.length)) = some (1, 2)
     ∧ (pickCore exS0 { t := 2, e := 2, coin := true, partner := 1 }).toOption.map
         (fun r => (r.2.1.length, r.2.2.length)) = some (1, 1) := by decide +kernel
+
+/-! ## 12. Submitted references, received values: the hand-over of work units to the workers
+
+`runner.submit_work(md_items)` queues a REFERENCE (`aiorunner.submit_work`: `queue.put` + `sleep(0.05)`), the unit is
+pickled when a worker takes it — possibly after later `prep_md_items` calls, which work IN PLACE.  Model:
+`Model/RepexSubmit.lean` (heap of `md_items` objects, queue of references, `take` reads the object at take time). -/
+
+section Submit
+open Infretis.Repex.Submit
+
+/-- **Generic hand-over theorem.**  From any coherent state, under ANY sequence of operations (new objects,
+    `prep_md_items` begins / ends in place, submissions, worker takes, in any order) in which `prep_md_items` is never
+    run on an object whose reference is still queued: every unit a worker takes equals the unit that was submitted,
+    and every reference still queued points at an unchanged object. -/
+theorem take_eq_submitted (q q' : Q) (ops : List Op) (hc : Coherent q) (hf : FreshRun q ops)
+    (hr : Submit.run q ops = .ok q') :
+    (∀ r ∈ q'.recv, r.got = r.sub) ∧ (∀ e ∈ q'.queue, q'.heap[e.addr]? = some e.sub) := by
+  have := run_coherent ops hc hf hr
+  exact ⟨this.2, this.1⟩
+
+def exP1 : Picked := { ens := -1, pn := 0, rgen := ⟨0, [0, 0]⟩, rgenEng := ⟨0, [0, 0, 0]⟩, engIdx := [(0, 0)] }
+def exP2 : Picked := { ens := 1, pn := 2, rgen := ⟨0, [1, 0]⟩, rgenEng := ⟨0, [1, 0, 0]⟩, engIdx := [(0, 1)] }
+def exJ1 : Job := { pin := 0, wfolder := 0, picked := [exP1], pnumOld := [0] }
+def exJ2 : Job := { pin := 1, wfolder := 1, picked := [exP2], pnumOld := [2] }
+
+/-- **A new object per job (the code as it is): whatever happens in between, the unit a worker takes is the unit
+    submitted.**  For every list of submissions, each on a fresh copy, and EVERY interleaving with worker takes (`k0…k3`
+    takes after the copy, inside `prep_md_items`, before and after `submit_work` of every submission): if the run is
+    possible at all (no take from an empty queue), every taken unit was received as submitted, and taken + queued
+    units are exactly the submitted jobs, in submission order. -/
+theorem fresh_copy_take_eq_submitted (slots : List Slot) (q' : Q)
+    (hr : Submit.run {} (freshProg 0 slots) = .ok q') :
+    (∀ r ∈ q'.recv, r.got = r.sub) ∧
+      q'.recv.map (·.sub) ++ q'.queue.map (·.sub) = slots.map (fun b => some b.job) := by
+  have h := freshProg_spec slots (q := {}) coherent_empty hr
+  refine ⟨h.1.2, ?_⟩
+  have := h.2
+  simpa [submittedVals] using this
+
+/-- job 1 is taken while `prep_md_items` of job 2 is running on ITS OWN copy, job 2 after its submission -/
+example : Submit.run {} (freshProg 0 [{ job := exJ1 }, { job := exJ2, k1 := 1, k3 := 1 }])
+      = .ok { heap := [some exJ1, some exJ2], queue := [],
+              recv := [⟨0, some exJ1, some exJ1⟩, ⟨1, some exJ2, some exJ2⟩] } := by decide +kernel
+
+/-- **Counterexample for a shared template**: ONE object handed to `prep_md_items` for both initial jobs, both
+    references queued, then two workers take: both receive job 2 (same pin, folder, ensemble, path, engine
+    instance), nobody runs job 1 — although two DIFFERENT jobs were submitted. -/
+theorem shared_template_counterexample :
+    ∃ q', Submit.run {} (.alloc :: sharedProg 0 [{ job := exJ1 }, { job := exJ2, k3 := 2 }]) = .ok q' ∧
+      q'.recv.map (·.sub) = [some exJ1, some exJ2] ∧ q'.recv.map (·.got) = [some exJ2, some exJ2] ∧ exJ1 ≠ exJ2 ∧
+      ¬ ((q'.recv.filterMap (·.got)).map (·.pin)).Nodup :=
+  ⟨{ heap := [some exJ2], queue := [], recv := [⟨0, some exJ1, some exJ2⟩, ⟨0, some exJ2, some exJ2⟩] },
+    by decide +kernel, by decide +kernel, by decide +kernel, by decide +kernel, by decide +kernel⟩
+
+/-- … and a worker that takes the first unit while `prep_md_items` of the second job is running on the same object
+    receives a dict without `picked` (`none`): the `KeyError: 'picked'` inside the worker. -/
+theorem shared_template_half_filled_counterexample :
+    ∃ q', Submit.run {} (.alloc :: sharedProg 0 [{ job := exJ1 }, { job := exJ2, k1 := 1 }]) = .ok q' ∧
+      q'.recv = [⟨0, some exJ1, none⟩] :=
+  ⟨{ heap := [some exJ2], queue := [⟨0, some exJ2⟩], recv := [⟨0, some exJ1, none⟩] }, by decide +kernel, rfl⟩
+
+/-- the shared program violates exactly the hypothesis of `take_eq_submitted` -/
+example : ¬ FreshRun {} (.alloc :: sharedProg 0 [{ job := exJ1 }, { job := exJ2, k3 := 2 }]) := by
+  intro h
+  -- alloc, prepBegin 0, prepEnd 0 j1, submit 0, then prepBegin 0 with reference 0 in the queue
+  have h1 := h.2 _ rfl
+  have h2 := h1.2 _ rfl
+  have h3 := h2.2 _ rfl
+  have h4 := h3.2 _ rfl
+  exact h4.1 ⟨0, some exJ1⟩ (by decide) rfl
+
+/-- **The scheduler with a reference-queueing runner, as the code is** (`lazyStep false`: a new object per submission,
+    `scheduler()`'s events interleaved with worker takes in any order, only taken units can complete).  From a fresh
+    start or a restart, at every instant: the scheduler's part is the scheduler model of sections 1–11 run on the
+    scheduler events alone; the values the running workers RECEIVED followed by the values still queued are exactly
+    the model's jobs in flight; and every take so far delivered the unit as submitted. -/
+theorem workers_receive_jobs_in_flight (y0 : Sys) (evs : List LEv) (L : LSys) (h0 : Start y0)
+    (hr : lazyRun false { y := y0 } evs = .ok L) :
+    run y0 (schedEvs evs) = .ok L.y ∧ L.got ++ L.q.queue.map (·.sub) = L.y.jobs.map some ∧
+      (∀ r ∈ L.q.recv, r.got = r.sub) := by
+  have hj : y0.jobs = [] := by
+    rcases h0 with h | h
+    · exact h.jobs
+    · exact h.jobs
+  have hi := lazyRun_fresh_inv evs (linv_start y0 hj) hr
+  exact ⟨lazyRun_proj evs hr, hi.2, hi.1.2⟩
+
+/-- **What the workers hold is never shared.**  Same quantifier: the units the running workers received are complete
+    jobs `js` (a prefix of the jobs in flight), with pairwise distinct pins and work folders (`worker<pin>`), pairwise
+    disjoint ensembles and paths, and no engine instance listed by two of them. -/
+theorem received_units_exclusive (y0 : Sys) (evs : List LEv) (L : LSys) (h0 : Start y0)
+    (hr : lazyRun false { y := y0 } evs = .ok L) :
+    ∃ js : List Job, L.got = js.map some ∧ List.IsPrefix js L.y.jobs ∧
+      (js.map (·.pin)).Nodup ∧ (js.map (·.wfolder)).Nodup ∧ (∀ j ∈ js, j.wfolder = j.pin) ∧
+      ((inflight js).map (·.ens)).Nodup ∧ ((inflight js).map (·.pn)).Nodup ∧
+      (∀ (i1 i2 : Nat) (j1 j2 : Job), js[i1]? = some j1 → js[i2]? = some j2 →
+        ∀ p1 ∈ j1.picked, ∀ p2 ∈ j2.picked, ∀ ki, ki ∈ p1.engIdx → ki ∈ p2.engIdx → i1 = i2) := by
+  have hj : y0.jobs = [] := by
+    rcases h0 with h | h
+    · exact h.jobs
+    · exact h.jobs
+  have hi := lazyRun_fresh_inv evs (linv_start y0 hj) hr
+  have hrun := lazyRun_proj evs hr
+  simp only at hrun
+  have hsplit : L.y.jobs = L.y.jobs.take L.got.length ++ L.y.jobs.drop L.got.length :=
+    (List.take_append_drop _ _).symm
+  have hsub : List.Sublist (L.y.jobs.take L.got.length) L.y.jobs := List.take_sublist _ _
+  have hinf : inflight L.y.jobs = inflight (L.y.jobs.take L.got.length) ++ inflight (L.y.jobs.drop L.got.length) := by
+    simp only [inflight]
+    rw [← List.flatMap_append, List.take_append_drop]
+  refine ⟨L.y.jobs.take L.got.length, got_prefix hi, List.take_prefix _ _, ?_, ?_, ?_, ?_, ?_, ?_⟩
+  · exact (hsub.map _).nodup (pins_distinct_restart y0 L.y _ h0 hrun)
+  · exact (hsub.map _).nodup (wfolder_exclusive_restart y0 L.y _ h0 hrun).2
+  · intro j hjm
+    exact (wfolder_exclusive_restart y0 L.y _ h0 hrun).1 j (hsub.subset hjm)
+  · have := inflight_ens_disjoint_restart y0 L.y _ h0 hrun
+    rw [hinf, List.map_append] at this
+    exact (List.nodup_append.mp this).1
+  · have := inflight_paths_disjoint_restart y0 L.y _ h0 hrun
+    rw [hinf, List.map_append] at this
+    exact (List.nodup_append.mp this).1
+  · intro i1 i2 j1 j2 h1 h2 p1 hp1 p2 hp2 ki hk1 hk2
+    have hl1 : i1 < (L.y.jobs.take L.got.length).length := by
+      rcases Nat.lt_or_ge i1 (L.y.jobs.take L.got.length).length with h | h
+      · exact h
+      · rw [List.getElem?_eq_none h] at h1; exact absurd h1 (by simp)
+    have hl2 : i2 < (L.y.jobs.take L.got.length).length := by
+      rcases Nat.lt_or_ge i2 (L.y.jobs.take L.got.length).length with h | h
+      · exact h
+      · rw [List.getElem?_eq_none h] at h2; exact absurd h2 (by simp)
+    rw [List.length_take] at hl1 hl2
+    rw [List.getElem?_take_of_lt (by omega)] at h1 h2
+    exact engine_instance_exclusive_restart y0 L.y _ h0 hrun i1 i2 j1 j2 h1 h2 p1 p2 hp1 hp2 ki hk1 hk2
+
+/-- the concrete history of section 0 with lazy takes: worker 0's zero swap is taken only after worker 1's job was
+    prepared and submitted — both workers still receive their own jobs -/
+def exLazy : List LEv :=
+  [ .sched (.start { t := 0, e := 0, coin := true, partner := 1 }),
+    .sched (.start { t := 2, e := 2 }), .take, .take, .sched .initDone ]
+
+def exLazyEnd : LSys :=
+  { y := exAt 3,
+    q := { heap := (exAt 3).jobs.map some,
+           queue := [],
+           recv := [⟨0, (exAt 3).jobs[0]?, (exAt 3).jobs[0]?⟩, ⟨1, (exAt 3).jobs[1]?, (exAt 3).jobs[1]?⟩] },
+    got := (exAt 3).jobs.map some }
+
+example : Start exSys ∧ lazyRun false { y := exSys } exLazy = .ok exLazyEnd ∧ exLazyEnd.got = (exAt 3).jobs.map some ∧
+    exLazyEnd.got.length = 2 ∧ exLazyEnd.q.queue = [] :=
+  ⟨Or.inl ex_init, by decide +kernel, rfl, by decide +kernel, rfl⟩
+
+def exSharedEnd : LSys :=
+  { y := exAt 3,
+    q := { heap := [(exAt 3).jobs[1]?],
+           queue := [],
+           recv := [⟨0, (exAt 3).jobs[0]?, (exAt 3).jobs[1]?⟩, ⟨0, (exAt 3).jobs[1]?, (exAt 3).jobs[1]?⟩] },
+    got := [(exAt 3).jobs[1]?, (exAt 3).jobs[1]?] }
+
+/-- **Counterexample, composed with the scheduler model**: the initiation loop hands the template object itself to
+    `prep_md_items` (`lazyStep true`).  Same history, same takes: the scheduler's own books are those of the correct
+    run (two jobs in flight with pins 0 and 1, `[0-]`,`[0+]` and `[1+]` busy), but BOTH workers received the job of
+    worker 1. -/
+theorem shared_template_scheduler_counterexample :
+    ∃ L, lazyRun true { y := exSys } exLazy = .ok L ∧ L.y = exAt 3 ∧
+      L.y.jobs.map (·.pin) = [0, 1] ∧ (L.got.filterMap id).map (·.pin) = [1, 1] ∧
+      (L.got.filterMap id).map (fun j => j.picked.map (·.ens)) = [[1], [1]] ∧
+      L.q.recv.map (fun r => decide (r.got = r.sub)) = [false, true] :=
+  ⟨exSharedEnd, by decide +kernel, rfl, by decide +kernel, by decide +kernel, by decide +kernel, by decide +kernel⟩
+
+end Submit
 
 end Infretis.C03
